@@ -43,7 +43,11 @@ def systems(pal=0):
         dict(n="P1", k="PSwitch", a=dict(rs=0.2, ig={"vi": [2.5, 5.0], "io": mio[1:], "ig": [[1e-5, 2e-5, 3e-5], [2e-5, 3e-5, 5e-5]]}), p=["V1"], g="", r=""),
         dict(n="L1", k="ILoad", a=dict(ii=0.03, iis=1e-4), p=["G1"], g="", r="", pc={"a": -0.012, "b": 0.02}),
         dict(n="L2", k="PLoad", a=dict(pwr=0.05, pwrs=1e-4), p=["P1"], g="", r="", pc={"a": -0.02}),
-        dict(n="L3", k="RLoad", a=dict(rs=400.0), p=["C1"], g="b", r="", pc={"b": -900.0})])
+        dict(n="L3", k="RLoad", a=dict(rs=400.0), p=["C1"], g="b", r="", pc={"b": -900.0}),
+        # parameters with more than 12 significant digits
+        dict(n="C9", k="Converter", a=dict(vo=10.0 / 3.0, eff=0.1 + 0.7, iq=1.0 / 7e4), p=["S1"], g="", r=""),
+        dict(n="R9", k="RLoss", a=dict(rs=0.1 + 0.2), p=["C9"], g="", r=""),
+        dict(n="L9", k="PLoad", a=dict(pwr=1.0 / 7.0, pwrs=1.0 / 3e4), p=["R9"], g="", r="")])
     return out
 
 
@@ -83,7 +87,8 @@ def run_analysis(s, spec, name, args):
             return ("save", open(p).read())
         if name == "plot_interp":
             fig, _ = quiet_call(s.plot_interp, first_table_comp(spec))
-            r = ("fig", None if fig is None else [[hashlib.sha1(l.get_ydata().tobytes()).hexdigest() for l in ax.lines] for ax in fig.axes])
+            r = ("fig", None if fig is None else [[hashlib.sha1(l.get_ydata().tobytes()).hexdigest() for l in ax.lines] for ax in fig.axes],
+                 None if fig is None else tuple(round(float(x), 6) for x in fig.get_size_inches()))
             plt.close("all")
             return r
         if name == "plot_interp_all":   # every tabulated component, 2-D ones also as a 3-D surface, with and without the input data points
@@ -92,7 +97,8 @@ def run_analysis(s, spec, name, args):
                 if any(isinstance(v, dict) for v in c["a"].values()):
                     for kw_ in (dict(), dict(inpdata=False), dict(plot3d=True)):
                         fig, _ = quiet_call(s.plot_interp, c["n"], **kw_)
-                        out_.append((c["n"], sorted(kw_), None if fig is None else [[hashlib.sha1(l.get_ydata().tobytes()).hexdigest() for l in ax.lines] for ax in fig.axes]))
+                        out_.append((c["n"], sorted(kw_), None if fig is None else [[hashlib.sha1(l.get_ydata().tobytes()).hexdigest() for l in ax.lines] for ax in fig.axes],
+                                     None if fig is None else tuple(round(float(x), 6) for x in fig.get_size_inches())))
                         plt.close("all")
             return ("figs", out_)
         if name in ("make_diag", "make_hdiag"):
